@@ -68,11 +68,28 @@ fn retarget<S: ShortGroupSignatureScheme>(schema: &PresentationSchema<S>, stmt_i
                     }
                     t.into()
                 }
+                Statements::Equality(x) => {
+                    let mut t = (**x).clone();
+                    if let Some(c) = claim {
+                        for (_, v) in t.ref_id_claim_index.iter_mut() {
+                            *v = c;
+                        }
+                    }
+                    t.into()
+                }
                 o => o.clone(),
             }
         })
         .collect();
     PresentationSchema::new_with_id(&stmts, &schema.id)
+}
+
+/// `n|revealed indices in the proof's own order|response vector` of a signature proof
+fn sig_ref_tok(v: &serde_json::Value, sid: &str, n: usize) -> String {
+    let sp = &v["proofs"][sid]["Signature"];
+    let rvl: Vec<String> = sp["disclosed_messages"].as_object().map(|m| m.keys().cloned().collect()).unwrap_or_default();
+    let proof: Vec<String> = sp["pok"]["proof"].as_array().map(|a| a.iter().map(|x| x.as_str().unwrap_or("").to_string()).collect()).unwrap_or_default();
+    format!("{}|{}|{}", n, if rvl.is_empty() { "-".to_string() } else { rvl.join(",") }, if proof.is_empty() { "-".to_string() } else { proof.join(",") })
 }
 
 fn permutations(n: usize) -> Vec<Vec<usize>> {
@@ -104,7 +121,7 @@ fn judge<S: ShortGroupSignatureScheme>(em: &mut Emitter, prop: &str, suite: &str
 fn c05_suite<S: ShortGroupSignatureScheme + 'static>(em: &mut Emitter, base: &mut Rng, suite: &str) {
     let off = if suite == "bbs" { 0 } else { 1 };
     // (statement kind, statement id, claim index it speaks about)
-    let kinds: Vec<(&str, &str, usize)> = vec![("commitment", "com0", 2), ("verenc", "ve0", 3), ("revocation", "rev0", 0), ("membership", "mem0", 1), ("ved", "ved0", 3), ("commitment+range", "com0", 2)];
+    let kinds: Vec<(&str, &str, usize)> = vec![("commitment", "com0", 2), ("verenc", "ve0", 3), ("revocation", "rev0", 0), ("membership", "mem0", 1), ("ved", "ved0", 3), ("commitment+range", "com0", 2), ("equality", "eq0", 2)];
     for k in 0..em.n(12, 120) {
         if !em.mine(2 * k + off) {
             continue;
@@ -119,8 +136,9 @@ fn c05_suite<S: ShortGroupSignatureScheme + 'static>(em: &mut Emitter, base: &mu
         let mut mix = Mix { n_creds: 2, n_claims, age: rng.range(18, 60), ..Default::default() };
         let used = ci;
         let disclosed: Vec<String> = [1usize, 3, 5].iter().filter(|i| **i != used).take(2).map(|i| LABELS[*i].to_string()).collect();
-        mix.disclosed = vec![disclosed.clone(), vec![]];
+        mix.disclosed = vec![disclosed.clone(), if kind == "equality" { disclosed.clone() } else { vec![] }];
         match kind {
+            "equality" => mix.equality = true,
             "commitment" => mix.commitment = Some(ci),
             "commitment+range" => {
                 mix.commitment = Some(ci);
@@ -132,7 +150,37 @@ fn c05_suite<S: ShortGroupSignatureScheme + 'static>(em: &mut Emitter, base: &mu
             "ved" => mix.ved = Some(ci),
             _ => {}
         }
-        let scn = Scn::<S>::build(rng, &mix);
+        let mut scn = Scn::<S>::build(rng, &mix);
+        if kind == "equality" {
+            // the verifier asks for equality of claim `ci` (ages made different); claims 4 and 5, above the
+            // disclosed ones, are made equal so that a shifted lookup can land on an equal pair
+            let mut c1 = scn.bundles[1].credential.claims.clone();
+            c1[0] = RevocationClaim::from(format!("c05-eq-{}", k)).into();
+            c1[4] = scn.bundles[0].credential.claims[4].clone();
+            c1[5] = scn.bundles[0].credential.claims[5].clone();
+            if c1[2].to_scalar() == scn.bundles[0].credential.claims[2].to_scalar() {
+                c1[2] = NumberClaim::from(mix.age as isize + 7).into();
+            }
+            let b = scn.issuers[1].sign_credential(&c1).unwrap();
+            scn.credentials.insert(scn.sig_ids[1].clone(), b.credential.clone().into());
+            scn.bundles[1] = b;
+            let stmts: Vec<Statements<S>> = scn
+                .schema
+                .statements
+                .values()
+                .map(|s| match s {
+                    Statements::Signature(ss) if ss.id == scn.sig_ids[1] => {
+                        let mut t = (**ss).clone();
+                        t.issuer = scn.bundles[1].issuer.clone();
+                        t.into()
+                    }
+                    o => o.clone(),
+                })
+                .collect();
+            scn.schema = PresentationSchema::new_with_id(&stmts, &scn.schema.id);
+            scn.schema = retarget(&scn.schema, st_id, Some(ci), None);
+        }
+        let scn = scn;
         let sid = scn.sig_ids[0].clone();
         let claims = &scn.bundles[0].credential.claims;
         let disclosed_idx: Vec<usize> = disclosed.iter().map(|l| LABELS.iter().position(|x| x == l).unwrap()).collect();
@@ -161,14 +209,29 @@ fn c05_suite<S: ShortGroupSignatureScheme + 'static>(em: &mut Emitter, base: &mu
                         continue;
                     }
                     let mut q = p.clone();
-                    if let Some(PresentationProofs::Signature(sq)) = q.proofs.get_mut(&sid) {
-                        let mut m = IndexMap::new();
-                        for i in &perm {
-                            m.insert(entries[*i].0, entries[*i].1);
+                    for (qi, qsid) in scn.sig_ids.iter().enumerate() {
+                        if qi > 0 && kind != "equality" {
+                            break;
                         }
-                        sq.disclosed_messages = m;
+                        if let Some(PresentationProofs::Signature(sq)) = q.proofs.get_mut(qsid) {
+                            let own: Vec<(usize, Scalar)> = sq.disclosed_messages.iter().map(|(i, s)| (*i, *s)).collect();
+                            if own.len() != perm.len() {
+                                continue;
+                            }
+                            let mut m = IndexMap::new();
+                            for i in &perm {
+                                m.insert(own[*i].0, own[*i].1);
+                            }
+                            sq.disclosed_messages = m;
+                        }
                     }
                     judge(em, "c05", suite, &format!("{}-on-other-claim+index-list-shaped", kind), &scn, &q, &format!("signed index {} proved for index {} order {:?}", ci, j, perm));
+                    if kind == "equality" {
+                        // model: sorted lookup of claim `ci` in every referenced proof, all equal (everything else in q is valid)
+                        let qv = serde_json::to_value(&q).unwrap();
+                        let refs: Vec<String> = scn.sig_ids.iter().map(|id| sig_ref_tok(&qv, id, n_claims)).collect();
+                        em.op(format!("eq.verdict {} {} {}", if suite == "bbs" { 0 } else { 2 }, ci, refs.join(" ")), format!("{}", scn.verify(&q).is_ok()));
+                    }
                 }
             }
         }
@@ -196,6 +259,14 @@ fn c05_suite<S: ShortGroupSignatureScheme + 'static>(em: &mut Emitter, base: &mu
                 sq.disclosed_messages.reverse();
             }
             em.oracle_case(&format!("{} honest-reversed {}", suite, k));
+            if kind == "revocation" && scn.verify(&q).is_ok() {
+                // model: the response the revocation verifier links to (sorted lookup of claim 0) is the proof's s_y
+                let qv = serde_json::to_value(&q).unwrap();
+                let t = sig_ref_tok(&qv, &sid, n_claims);
+                let parts: Vec<&str> = t.split('|').collect();
+                let sy = qv["proofs"]["rev0"]["Revocation"]["proof"]["s_y"].as_str().unwrap_or("").to_string();
+                em.op(format!("pred.linked {} {} {} {} 0", parts[0], if suite == "bbs" { 0 } else { 2 }, parts[1], parts[2]), format!("ok {}", sy));
+            }
             if !scn.verify(&q).is_ok() {
                 em.violation("c05:honest-permuted-list-rejected", format!("{}: honest presentation with the disclosed-index list reversed is rejected ({})", suite, kind), scn.replay(json!({"suite": suite, "kind": kind})));
             }
@@ -291,6 +362,9 @@ fn c09_suite<S: ShortGroupSignatureScheme + 'static>(em: &mut Emitter, base: &mu
                     if !scn.verify(&p).is_ok() {
                         em.violation("c09:equal-values-rejected", format!("{}: honest presentation with identical values rejected (claim position {})", suite, pos), replay.clone());
                     }
+                    let pv = serde_json::to_value(&p).unwrap();
+                    let refs: Vec<String> = scn.sig_ids.iter().map(|id| sig_ref_tok(&pv, id, n_claims)).collect();
+                    em.op(format!("eq.verdict {} {} {}", if suite == "bbs" { 0 } else { 2 }, pos, refs.join(" ")), format!("{}", scn.verify(&p).is_ok()));
                     // equality proof removed / moved to another id
                     let mut q = p.clone();
                     q.proofs.shift_remove("eq0");
@@ -319,6 +393,8 @@ fn c09_suite<S: ShortGroupSignatureScheme + 'static>(em: &mut Emitter, base: &mu
                 v["proofs"]["eq0"] = json!({"Equality": {"id": "eq0"}});
                 if let Out::Ok(q) = pres_from_value::<S>(&v) {
                     judge(em, "c09", suite, "independent-nonces", &scn, &q, &format!("pos {} high-bits-only {}", pos, high_bits_only));
+                    let refs: Vec<String> = scn.sig_ids.iter().map(|id| sig_ref_tok(&v, id, n_claims)).collect();
+                    em.op(format!("eq.verdict {} {} {}", if suite == "bbs" { 0 } else { 2 }, pos, refs.join(" ")), format!("{}", scn.verify(&q).is_ok()));
                     // copy the first credential's response into the others' vectors at that claim's slot
                     let hidden_slot = pos; // nothing is disclosed, so slot = index (BBS) or index + 2 (PS)
                     let slot = if suite == "bbs" { hidden_slot } else { hidden_slot + 2 };
@@ -420,6 +496,8 @@ fn c09_layouts<S: ShortGroupSignatureScheme + 'static>(em: &mut Emitter, rng: &m
                 let slot = if suite == "bbs" { pos } else { pos + 2 };
                 let rs: Vec<String> = (0..n_creds).map(|c| v["proofs"][&scn.sig_ids[c]]["Signature"]["pok"]["proof"][slot].as_str().unwrap_or("").to_string()).collect();
                 em.op(format!("eq.check {}", rs.join(",")), format!("{}", scn.verify(&q).is_ok()));
+                let refs: Vec<String> = scn.sig_ids.iter().map(|id| sig_ref_tok(&v, id, 4)).collect();
+                em.op(format!("eq.verdict {} {} {}", if suite == "bbs" { 0 } else { 2 }, pos, refs.join(" ")), format!("{}", scn.verify(&q).is_ok()));
             }
             // the same holder with values that are all equal: one group, accepted
             
